@@ -108,6 +108,7 @@ type Run struct {
 	gcMoved       map[string]map[uint64]bool // versions written back by a value-log GC rewrite
 	droppedMarkers map[string][]uint64        // delete/expired markers discarded by compactions
 	vlogEntries   map[uint32][]badger.VerifLogEntry
+	backups       []*backupRec
 	drops         []*dropRec
 	dropsActive   int
 	maxDiscardTs  uint64 // highest discard watermark any compaction used so far
@@ -1569,6 +1570,13 @@ func (r *Run) bubble() {
 	for k, v := range e.SiteHits {
 		if strings.HasPrefix(k, "choose:") {
 			r.stats.Probes[k] = v
+		} else {
+			// how often each schedule point was a scheduling step (reach)
+			site := k
+			if i := strings.IndexByte(site, ':'); i >= 0 {
+				site = site[:i]
+			}
+			r.stats.Probes["site:"+site] += v
 		}
 	}
 	if stuck {
@@ -1619,9 +1627,30 @@ func (r *Run) prefill() {
 			fillKeys = append(fillKeys, r.key(i))
 		}
 	}
+	// "clustered" pre-fill: the keys are written in segments that each touch only a
+	// contiguous sub-range of the sorted alphabet, so that memtables / L0 tables
+	// get narrow, partly disjoint key ranges instead of all spanning everything
+	sorted := append([][]byte{}, fillKeys...)
+	sort.Slice(sorted, func(i, j int) bool { return bytes.Compare(sorted[i], sorted[j]) < 0 })
+	prng := rand.New(rand.NewSource(int64(cfg.SkipSeed) + 7))
+	segLeft := 0
+	var seg [][]byte
 	var written int64
 	for i := 0; written < target && i < 3000; i++ {
 		key := fillKeys[i%len(fillKeys)]
+		if cfg.PrefillClustered {
+			if segLeft == 0 {
+				lo := prng.Intn(len(sorted))
+				hi := lo + 1 + prng.Intn(3)
+				if hi > len(sorted) {
+					hi = len(sorted)
+				}
+				seg = sorted[lo:hi]
+				segLeft = 3 + prng.Intn(25)
+			}
+			segLeft--
+			key = seg[prng.Intn(len(seg))]
+		}
 		txn := r.db.NewTransaction(true)
 		w := WriteRec{Key: string(key), Val: MakeValue(99, i, 0, vsz)}
 		var err error
